@@ -83,7 +83,7 @@ def new_base():
     lower-case literal) can match it."""
     global _counter
     _counter += 1
-    base = os.path.join(sandbox_root(), f"ZQV{os.getpid()}_{_counter}")
+    base = os.path.join(sandbox_root(), f"ZQV{os.getpid():07d}_{_counter:07d}")
     if os.path.exists(base):
         shutil.rmtree(base)
     os.mkdir(base)
@@ -96,7 +96,7 @@ def drop_base(base):
 
 def cleanup_all():
     root = sandbox_root()
-    pref = f"ZQV{os.getpid()}_"
+    pref = f"ZQV{os.getpid():07d}_"
     try:
         for n in os.listdir(root):
             if n.startswith(pref):
